@@ -133,3 +133,21 @@ package dtls
 //@ func netError
 //@ noinline
 //@ end
+
+// DTLS 1.3 receive side (RFC 9147 9): a ciphertext record that carries a connection ID is accepted only if that ID is
+// byte-equal to the endpoint's own; a missing ID is refused when one is expected.
+//@ func Conn.unmarshalCiphertextRecord
+//@ watch bytes.Equal! Conn.ciphertextCIDPolicy
+//@ requires args: wfConn(c) && len(buf) > 0
+//@ ensures cid-record-needs-equal-id: result1 == nil && old(buf[0])&recordlayer.UnifiedHeaderCIDBit != 0 ==> called("bytes.Equal!") && retBool("bytes.Equal!", 0)
+//@ ensures cid-compared-with-own-id: called("bytes.Equal!") ==> sameSlice(argBytes("bytes.Equal!", 1), result0.Header.ConnectionID)
+//@ ensures missing-id-refused-when-expected: called("Conn.ciphertextCIDPolicy") && retBool("Conn.ciphertextCIDPolicy", 0) && old(buf[0])&recordlayer.UnifiedHeaderCIDBit == 0 ==> result1 != nil
+//@ ensures unexpected-id-refused: called("Conn.ciphertextCIDPolicy") && retErr("Conn.ciphertextCIDPolicy", 2) == nil && !retBool("Conn.ciphertextCIDPolicy", 1) && old(buf[0])&recordlayer.UnifiedHeaderCIDBit != 0 ==> result1 != nil
+//@ end
+
+// Alerts (close_notify included) are protected records too: with a negotiated peer connection ID they must be wrapped
+// (content type tls12_cid), otherwise the peer discards them.
+//@ func Conn.notify
+//@ ensures c15-alert-wrapped-iff-peer-id-negotiated: is12(c) && called("Conn.writePackets!") ==> len(argAs("Conn.writePackets!", 2, []*dtlsflight.Packet{})) == 1
+//@    && atCall("Conn.writePackets!", argAs("Conn.writePackets!", 2, []*dtlsflight.Packet{})[0].ShouldWrapCID == (len(PEERCID(c)) > 0))
+//@ end
